@@ -267,11 +267,12 @@ class LiteralUnpackerBuilder(AbstractUnpackerBuilder):
                 )
                 with lines.indent(
                     f"if value.__class__ is "
-                    f"{enum_type_name}.{literal_value.name}.value.__class__ "
-                    f"and value == {enum_type_name}.{literal_value.name}.value:"
+                    f"{enum_type_name}[{literal_value.name!r}].value.__class__ "
+                    f"and value == "
+                    f"{enum_type_name}[{literal_value.name!r}].value:"
                 ):
                     lines.append(
-                        f"return {enum_type_name}.{literal_value.name}"
+                        f"return {enum_type_name}[{literal_value.name!r}]"
                     )
             elif isinstance(literal_value, bytes):
                 unpacker = UnpackerRegistry.get(
